@@ -22,7 +22,11 @@ type C04Payload struct {
 	// LateHelp: the parser is built and used once WITHOUT HelpFlag; the flag is
 	// then switched on (Parser.Options is a public field) and the line with the
 	// help request is parsed by the same parser.
-	LateHelp  bool               `json:"late_help,omitempty"`
+	LateHelp bool `json:"late_help,omitempty"`
+	// LatePrint: the parser is built, and rejects one command line, with the
+	// PrintErrors bit the other way round; the bit gets its declared value
+	// (Parser.Options is a public field) before the judged ParseArgs.
+	LatePrint bool               `json:"late_print,omitempty"`
 	Fd1Faults []simrt.WriteFault `json:"fd1_faults,omitempty"`
 	Fd2Faults []simrt.WriteFault `json:"fd2_faults,omitempty"`
 	EmptyComp bool               `json:"empty_completion_env,omitempty"` // GO_FLAGS_COMPLETION="" must behave like unset
@@ -149,6 +153,8 @@ func (propC04) Gen(r *Rng, idx int, tier string) *Scenario {
 					p.Fault = &f
 					if f.Kind == "help" && fr.Chance(1, 3) {
 						p.LateHelp = true
+					} else if fr.Chance(1, 8) {
+						p.LatePrint = true
 					}
 					break
 				}
@@ -250,6 +256,12 @@ func c04Run(sc *Scenario, argv []string, callee []CalleeFault, env map[string]st
 		d2.Options &^= optHelpFlag
 		s2.Decl = &d2
 		s2.Ops = []Op{{Kind: "parse", Argv: bstrs(sc.C04.Plan.argv())}, {Kind: "setopts", IniOpts: sc.Decl.Options | optHelpFlag}, op}
+	}
+	if sc.C04 != nil && sc.C04.LatePrint && !sc.C04.LateHelp && !(sc.C04.Mode == "adversarial" && sc.C04.HasFirst) {
+		d2 := *sc.Decl
+		d2.Options ^= optPrintErrors
+		s2.Decl = &d2
+		s2.Ops = []Op{{Kind: "parse", Argv: []BStr{"--no-such-option-zz"}}, {Kind: "setopts", IniOpts: sc.Decl.Options}, op}
 	}
 	if sc.C04 != nil && sc.C04.Mode == "adversarial" && sc.C04.HasFirst {
 		s2.Ops = []Op{{Kind: "parse", Argv: sc.C04.Argv0}, op}
@@ -423,7 +435,9 @@ func (propC04) Judge(sc *Scenario) *Verdict {
 	}
 	r := lastOp(o)
 	label := "ParseArgs"
-	if len(o.Ops) == 3 {
+	if len(o.Ops) == 3 && p.LatePrint && !p.LateHelp {
+		label = "ParseArgs after the PrintErrors bit got its declared value"
+	} else if len(o.Ops) == 3 {
 		label = "ParseArgs after HelpFlag was switched on"
 	}
 	if len(o.Ops) == 2 {
@@ -550,6 +564,9 @@ func (propC04) Reductions(sc *Scenario) []func(*Scenario) bool {
 	}
 	if p.EmptyComp {
 		out = append(out, func(s *Scenario) bool { s.C04.EmptyComp = false; return true })
+	}
+	if p.LatePrint {
+		out = append(out, func(s *Scenario) bool { s.C04.LatePrint = false; return true })
 	}
 	if p.LateHelp {
 		out = append(out, func(s *Scenario) bool { s.C04.LateHelp = false; return true })
